@@ -260,7 +260,7 @@ class C19(Sim):
               "normals_requested", "single_edge_polyline", "single_face_surface", "multi_component_polyline", "n1!=n2", "n1==n2",
               "chi2_test_run", "chi2_polyline", "chi2_surface", "t_out_of_range", "t_endpoint", "degree0", "patch_nonsquare_net",
               "shared_stream_run", "large_centre"]
-    QUICK_RUNS = 4000
+    QUICK_RUNS = 6000
     THOROUGH_RUNS = 300000
     BLOCK = 20
     ASSUMPTIONS = [
@@ -298,8 +298,8 @@ class C19(Sim):
             "curves": [gen_curve(wr.fork(("cv", i))) for i in range(rng.randint(1, 3))],
             "patches": [gen_patch(wr.fork(("pt", i))) for i in range(rng.randint(1, 2))],
         }
-        ops = rng.subset(SAMPLER_OPS, 0.55, at_least=1)
-        bops = rng.subset(BEZIER_OPS, 0.55, at_least=1)
+        ops = rng.subset(SAMPLER_OPS, 0.4, at_least=1)
+        bops = rng.subset(BEZIER_OPS, 0.45, at_least=1)
         clients = ["samplerA"]
         if rng.chance(0.6):
             clients.append("samplerB")
